@@ -13,6 +13,8 @@ TECHNIQUE = ("Lean 4 invariant proofs over a model of the upload decision: selec
              "C08's servers_of_happiness on the whole remaining servermap), WriteBucketProxy.close = flush + remote close, answers "
              "after the error, and UploadResults as a function of the surviving landlords; correspondence of recorded failure scripts "
              "from real uploads on the in-process grid (outcome, placed, servermap, UploadResults maps/counters, visible shares); "
+             "the selector's answer history (get_buckets / allocate_buckets answers and errors over all rounds) replayed through the model of "
+             "its bookkeeping (on C08's SelState) and compared with what the code hands to set_shareholders; "
              "monitor recomputing happiness from the share files on disk")
 LEVEL_TEXT = ("Proved for every pre-existing layout, allocation, failure script and answer order: success implies a matching of >= happy "
               "(server, share) pairs among pre-existing shares and surviving landlords (C08's happiness function, reused), every share "
@@ -20,7 +22,8 @@ LEVEL_TEXT = ("Proved for every pre-existing layout, allocation, failure script 
               "raised iff the surviving set cannot meet the threshold (under the dict / no-double-allocation hypotheses); on the error every "
               "bucket writer was aborted and every share whose remote close may have been issued received all its bytes. Tied to the "
               "code by replaying, in the model, the true set_shareholders inputs and the failure sequence recorded from real uploads with "
-              "injected faults. Partial: the multi-round server-selection loop is modelled only through its result; storage semantics "
+              "injected faults. Server selection is modelled as bookkeeping over any history of answers (proved: what is handed over, too few servers => error, no granted "
+              "bucket leaks, composed success theorem); which shares are asked of which server and the stopping rule are C07's. storage semantics "
               "of abort/close is C22.")
 LEVEL_NOTE = ("Lean kernel + standard axioms; the happiness function is C08's model of servers_of_happiness (proved there to be the "
               "maximum matching number), abstract in the bookkeeping theorems; hand-written model; real uploads run on harness/grid.py "
@@ -31,7 +34,8 @@ RULE = ("fixed corpus (one scenario per known mechanism) first; seeded grids (1.
         "(grid shape, fault script, outcome); non-trivial = at least one fault fired or a pre-existing share was found or the outcome is unhappy.")
 TRUSTED = ["harness/grid.py fault hooks",
            "observation hooks in harness/props/c06.py (CHKUploader.set_shareholders, Encoder.set_shareholders/_remove_shareholder, "
-           "Tahoe2ServerSelector._failed, WriteBucketProxy._actually_write): pass-through wrappers"]
+           "Tahoe2ServerSelector._failed/_handle_existing_response/_handle_existing_write_response/_buckets_allocated, "
+           "WriteBucketProxy._actually_write): pass-through wrappers"]
 ASSUMPTIONS = ["bucket writer abort deletes the incoming share, only close makes it visible (C22)",
                "the pre-existing shares handed to the model are complete shares: get_buckets / alreadygot name final shares only (C22); "
                "monitored on concurrent uploads of the same file",
@@ -266,6 +270,31 @@ def run_scenario(ctx, s):
             orig_aw = layout.WriteBucketProxy._actually_write
             encs = []
             wlog = {}     # id(WriteBucketProxy) -> did its latest remote write fail?
+            events = []   # the selector's answers, in the order its handlers saw them (model: SelEv history)
+            orig_her = upload.Tahoe2ServerSelector._handle_existing_response
+            orig_hewr = upload.Tahoe2ServerSelector._handle_existing_write_response
+            orig_ba = upload.Tahoe2ServerSelector._buckets_allocated
+
+            def lst(xs):
+                return ".".join(map(str, sorted(xs))) or "-"
+
+            def her(self, res, tracker):
+                i = ids[tracker.get_serverid()]
+                events.append("G%d" % i if isinstance(res, Failure) else "g%d:%s" % (i, lst(res.keys())))
+                return orig_her(self, res, tracker)
+
+            def hewr(self, res, tracker, shares_to_ask):
+                i = ids[tracker.get_serverid()]
+                events.append("G%d" % i if isinstance(res, Failure) else "g%d:%s" % (i, lst(res.keys())))
+                return orig_hewr(self, res, tracker, shares_to_ask)
+
+            def ba(self, res, tracker, shares_to_ask):
+                i = ids[tracker.get_serverid()]
+                if isinstance(res, Failure):
+                    events.append("A%d:%s" % (i, lst(shares_to_ask)))
+                else:
+                    events.append("a%d:%s:%s:%s" % (i, lst(shares_to_ask), lst(res[0]), lst(res[1])))
+                return orig_ba(self, res, tracker, shares_to_ask)
 
             def chk_set(self, upload_trackers, already_serverids, encoder):
                 # the true inputs of set_shareholders (the servermap it builds shares its sets with already_serverids)
@@ -305,6 +334,9 @@ def run_scenario(ctx, s):
             upload.Tahoe2ServerSelector._failed = failed
             upload.CHKUploader.set_shareholders = chk_set
             layout.WriteBucketProxy._actually_write = aw
+            upload.Tahoe2ServerSelector._handle_existing_response = her
+            upload.Tahoe2ServerSelector._handle_existing_write_response = hewr
+            upload.Tahoe2ServerSelector._buckets_allocated = ba
             try:
                 outcome, res = None, None
                 try:
@@ -323,6 +355,9 @@ def run_scenario(ctx, s):
                 upload.Tahoe2ServerSelector._failed = orig_failed
                 upload.CHKUploader.set_shareholders = orig_chk_set
                 layout.WriteBucketProxy._actually_write = orig_aw
+                upload.Tahoe2ServerSelector._handle_existing_response = orig_her
+                upload.Tahoe2ServerSelector._handle_existing_write_response = orig_hewr
+                upload.Tahoe2ServerSelector._buckets_allocated = orig_ba
             case["fired"] = [list(f) for f in fired]
             case["outcome"] = outcome
             # ---------------- monitor (from the statement, on the real server state)
@@ -368,6 +403,20 @@ def run_scenario(ctx, s):
                                  [p for _, p in g.incoming_files()][:3], "none")
             # ---------------- correspondence with the model
             line, want = model_line(ctx, s.happy, rec, encs[-1] if encs else None, res, outcome, ids, disk, pre_present)
+            if line:
+                # the same upload once more, now from the selector's recorded answers: server selection (model `select`)
+                # must hand over exactly the (pre-existing map, allocation) the code handed to set_shareholders / _failed
+                toks = line.split()
+                pre_now = rec["already"] if rec["alloc"] is not None else rec["selector_failed"]
+                alloc_now = rec["alloc"] if rec["alloc"] is not None else rec["selector_alloc"]
+                want2 = dict(want)
+                want2["selpre"] = ";".join("%d:%s" % (sh, ".".join(map(str, ps))) for sh, ps in sorted(pre_now.items())) or "-"
+                want2["selalloc"] = ",".join("%d:%d" % (sh, p) for sh, p in alloc_now) or "-"
+                line = [line, "sel %d %d %s %s %s" % (s.happy, s.n, ",".join(events) or "-", toks[4], toks[5])]
+                want = [want, want2]
+                ctx.count("selection-events", len(events))
+                if sum(1 for e in events if e[0] in "aA") > s.num_servers:
+                    ctx.count("uploads-with-a-second-allocation-round")
             if rec["alloc"] is not None and outcome in ("success", "unhappy"):
                 # the model's input alphabet: every failing remote write/close on a bucket writer reaches the encoder as a
                 # shareholder-loss event (layout._actually_write / close hand the failure back; encode.py's errbacks run
@@ -730,10 +779,11 @@ def run(ctx):
                 ctx.disagree("fixed corpus scenario %s: outcome / fault not as on the reference code" % s.corpus, case,
                              [case["outcome"], exercised], [s.expect, "mechanism exercised"])
         if line:
-            lines.append(line)
-            wants.append(want)
-            cases.append(dict(case, line=line))
-            ctx.count("model-line:" + want["outcome"])
+            for (l1, w1) in (zip(line, want) if isinstance(line, list) else [(line, want)]):
+                lines.append(l1)
+                wants.append(w1)
+                cases.append(dict(case, line=l1))
+                ctx.count("model-line:" + w1["outcome"])
     outs = ctx.model(lines)
     if outs is not None:
         for c, w, o in zip(cases, wants, outs):
